@@ -618,11 +618,18 @@ def Sched.takeDue (s : Sched) (now : Time) : Sched × List Action :=
   let again := due.filterMap (fun t => t.rep.map (fun d => { t with deadline := t.deadline + d }))
   ({ s with events := keep ++ again }, due.map (·.act))
 
+/-- a fired function runs as a task of the connection's task group: an exception in it collapses the group, the
+    `async with client` block is left and `cleanup()` runs (the other tasks started at the same instant still run) -/
+def Conn.fireOne (env : Env) (now : Time) (c : Conn) (a : Action) : R :=
+  let r := c.fire env now a
+  match r.err with
+  | none => r
+  | some _ => let r' := r.c.cleanup; { c := r'.c, outs := r.outs ++ r'.outs, err := none }
+
 def Conn.fireAll (env : Env) (now : Time) : List Action → Conn → R
   | [], c => R.ok c
   | a :: as, c =>
-    -- every fired function runs as its own task: an exception in one does not stop the others
-    let r := c.fire env now a
+    let r := c.fireOne env now a
     let r' := Conn.fireAll env now as r.c
     { c := r'.c, outs := r.outs ++ r'.outs, err := r'.err }
 
